@@ -987,6 +987,9 @@ def classify(rj, scen_lines, mainnet):
             cause = "malformed-event"
         elif any(e["cl"] == 255 for e in since):
             cause = "wellformed-event-cl=255"
+        elif any(x["ev"] == "Req" and x["a"]["route"] == "multicall" and x["a"].get("ans") == "fail"
+                 for x in scen_lines if x["n"] < later_exit["n"]):
+            cause = "metadata-request-error"      # the HTTP error of a metadata multi-call is not an API error that may end Run
         else:
             cause = "unknown"
         return "C09", "run-exit/event-content/%s" % cause
@@ -1212,11 +1215,18 @@ def pinned(prop):
         g.good(b, cl=0); g.emit(b, ei=1); g.good(b, cl=0)
         g.step(None); g.raise_height(2)
         done(g, "wrong-event-index")
-        # attestation-shaped events of a foreign caller naming contracts whose metadata call fails in position 2 / 3
-        for tok in ("t2", "t3"):
+        # attestation-shaped events (foreign caller / token bridge alternating) naming a contract whose metadata multi-call
+        # answers in EVERY failure shape: HTTP error, 2 or 4 results, a failed call or no return value in each position,
+        # wrong value type, decimals out of range.  The neighbours must come out; the watcher must stay up.
+        for k, shape in enumerate(TOK_SHAPES):
             g = start(page=3)
+            g.op(op="tok", id="t5", shape=shape)
             b = g.block(ts=-5000)
-            g.good(b, cl=0); g.good(b, kind="attest", tok=tok, claim="m1", cl=0, tb=False); g.good(b, cl=0)
+            g.good(b, cl=0); g.good(b, kind="attest", tok="t5", claim="m1", cl=0, tb=(k % 2 == 1)); g.good(b, cl=0)
             g.step(None); g.raise_height(2)
-            done(g, "metadata-call-" + ("failed1" if tok == "t2" else "failed2"))
+            g.step(None)
+            b2 = g.block(ts=-5000)
+            g.good(b2, cl=0)
+            g.step(None); g.raise_height(1)
+            done(g, "metadata-call-" + shape)
     return res
